@@ -162,6 +162,34 @@ T.update({
               caught_by={"C18": "C18/*/workflows-share-identity (40 % of the runs now declare force_new_workflow and let workflows call the task again from inside; before, no sub-workflow existed)"}, missed_by={"C18 (before)": "no run used force_new_workflow"}),
 })
 
+# sixth wave (eight properties, third change each; "look elsewhere" lists extended)
+T.update({
+ "C04c": dict(breaks=["C04", "C14"], summary="BaseRunner._report_child_runner_heartbeats is throttled to one report per atomic_service_check_interval_minutes (framed as a write-load optimisation): with runner_considered_dead_after_minutes shorter than that interval a live, parent-reported child looks dead and its RUNNING invocation is selected by the running-recovery scan.",
+              needs="dead timeout shorter than the service-check interval (fast fail-over configuration), a parent with a live child owning a RUNNING invocation, a recovery scan between timeout and interval after the last report.",
+              caught_by={"C04": "C04/hist/*/running-scan/extra, misses, status-after-op (parent-reported heartbeats now go through the real BaseRunner._report_child_runner_heartbeats of a process-runner object with an alive child and a dead sibling; the service-check cadence is randomised)"}, missed_by={"C04 (before)": "'reported by its parent' was a direct register_runner_heartbeats call: the parent-side code was not executed"}),
+ "C05c": dict(breaks=["C05"], summary="BaseOrchestrator.set_invocation_exception publishes FAILED before the state backend has stored the exception: a reader in between sees FAILED and gets KeyError instead of the raised exception; a crash in between leaves FAILED without exception for good.",
+              needs="a failing task and a reader between the status publication and the exception write.",
+              caught_by={"C05": "C05/mem/failed-without-exception/exc/<serializer> (concurrent reader stratum)"}, missed_by={}),
+ "C10c": dict(breaks=["C10"], summary="set_invocation_status discards the record returned by the atomic transition and re-reads the current record before add_history: if another runner changes the invocation in between, the first runner records the other's status under its own runner id (own change missing, other's duplicated and misattributed).",
+              needs="a second actor transitioning the same invocation between the first one's commit and its history write (recovery, kill, fast re-claim).",
+              caught_by={"C10": "C10/sqlite/extra/REROUTED, missing/PENDING, missing/RETRY"}, missed_by={}),
+ "C11c": dict(breaks=["C11"], summary="BaseRunner._kill_and_reroute gets a PENDING short-cut (read status; if PENDING reroute directly) placed before the helper's try/except: if the task thread moves PENDING->RUNNING between read and reroute, the transition error escapes _on_stop and the rest of the thread table is never killed / rerouted.",
+              needs="a stop while one claimed invocation is between thread start and its RUNNING transition, that thread moving inside the read-to-reroute window, and at least one more invocation later in the thread table.",
+              caught_by={"C11": "C11/*/run-raised/InvocationStatusTransitionError/* (strata mem-/sqlite-pending-thread: task threads start late in virtual time, the stop lands while a claimed invocation has its thread but is still PENDING, the loop thread stalls before every effect inside _kill_and_reroute; an exception escaping run() is a violation of 'the stop completes')"}, missed_by={"C11 (before)": "the stop never landed in the thread-started-still-PENDING phase with the thread moving inside one hand-over, and an exception escaping run() with nothing left owned was not reported"}),
+ "C14c": dict(breaks=["C14"], summary="ProcessRunner._reclaim_available_slots prunes dead workers by walking inv_id_to_runner_id instead of child_runner_ids: a worker whose invocation entry was overwritten (same invocation dispatched again while the first worker was alive) is never forgotten; one slot is lost per orphan.",
+              needs="the same invocation handed to two workers of one ProcessRunner in consecutive iterations (retry / reroute picked up before the old worker exits), then worker deaths.",
+              caught_by={"C14": "C14/PR/dead-workers-still-tracked, slots-not-refilled (ProcessRunner re-dispatch scenario: short queue, a held invocation is recovered the way pending recovery does and handed to a second worker while the first lives)"}, missed_by={"C14 (before)": "no invocation was ever dispatched twice to one ProcessRunner"}),
+ "C17c": dict(breaks=["C17"], summary="MemClientDataStore keeps payloads in a class-level pool keyed by content hash (dedupe); purge of one app removes the pool entries of every key it owns, including content another app stored too.",
+              needs="two in-memory apps in one process externalising identical large content, purge of one, the other's local LRU no longer holding the value.",
+              caught_by={"C17": "C17/mem/foreign-state-changed/purge-app/client_data (half of the stored values are content another app may store too; local LRU of 1-2 entries in 3 of 4 runs)"}, missed_by={"C17 (before)": "every stored value was unique and the default LRU (1024) answered every read"}),
+ "C19c": dict(breaks=["C19"], summary="ConcurrentInvocation.result: recursive retry turned into a loop that tests retriable-ness with `type(exc) in frozenset(retry_for)` (exact class) while the distributed path keeps matching subclasses.",
+              needs="a body raising a strict subclass of a retry_for class (e.g. retry_for=(OSError,), body raises ConnectionError) with max_retries >= 1.",
+              caught_by={"C19": "C19/sync-vs-mem/executions/* (exception kinds retry-sub = subclass of RetryError and retriable-sub = subclass of the class listed in retry_for)"}, missed_by={"C19 (before)": "bodies only raised the listed classes themselves"}),
+ "C20c": dict(breaks=["C20"], summary="the invocation detail page stores a placeholder RunnerContext through state_backend.store_runner_context when a history entry names a runner whose context is missing ('cache to stop repeated warnings'): a GET creates a runner record.",
+              needs="a partially purged store: a history entry whose runner_context_id has no stored context; GET /invocations/{id}.",
+              caught_by={"C20": "C20/sqlite/tables/GET /invocations/{id} (the application keeps working after a state-backend purge; the monitor is a second application object on the same database in half of the SQLite runs; exact row counts of all the app's tables are part of the snapshot)"}, missed_by={"C20 (before)": "monitor and application shared one object (and its runner-context cache), nothing happened after the purge, and stored runner contexts were read through that cache"}),
+})
+
 def main():
     suite = {}
     p = os.path.join(V, "seeded", "suite_results.json")
